@@ -27,12 +27,34 @@ ASSUMPTIONS = [
 ]
 
 
+def exact_covers_rec(rows, ncols, sec_mask):
+    """the same set by recursion on the lowest uncovered primary column (for matrices with many rows)"""
+    prim = ((1 << ncols) - 1) & ~sec_mask
+    cand = [i for i in range(len(rows)) if rows[i] & prim]
+    out = set()
+
+    def rec(used, sel):
+        open_prim = prim & ~used
+        if not open_prim:
+            out.add(frozenset(sel))
+            return
+        col = open_prim & -open_prim
+        for i in cand:
+            if rows[i] & col and not rows[i] & used:
+                rec(used | rows[i], sel + [i])
+
+    rec(0, [])
+    return out
+
+
 def exact_covers(rows, ncols, sec_mask):
     """rows: list of column bitmasks. returns set of frozenset(row indices)."""
     prim = ((1 << ncols) - 1) & ~sec_mask
     out = set()
     r = len(rows)
     cand = [i for i in range(r) if rows[i] & prim]
+    if len(cand) > 14:
+        return exact_covers_rec(rows, ncols, sec_mask)
     for m in range(1 << len(cand)):
         used = 0
         ok = True
@@ -143,6 +165,10 @@ def judge(matrix, sec_cols, find_all, max_solutions, max_iter, naming, tap=False
     rows = [sum(1 << j for j in range(c) if matrix[i][j]) for i in range(r)]
     sec_mask = sum(1 << j for j in sec_cols)
     truth = exact_covers(rows, c, sec_mask)
+    if r <= 10 and (sum(rows) + sec_mask) % 16 == 0 and exact_covers_rec(rows, c, sec_mask) != truth:
+        from vf.core import HarnessError
+
+        raise HarnessError(f"the two exact-cover oracles disagree on {matrix} secondary {list(sec_cols)}")
     before = copy.deepcopy(matrix)
     t = None
     if tap:
@@ -297,6 +323,43 @@ def _limits_chunk(params, lo, hi):
     return r
 
 
+def nqueens_matrix(n, order):
+    """one row per placement (i,j): primary columns 'row i' and 'column j', secondary columns for the two diagonals"""
+    cells = [(i, j) for i in range(n) for j in range(n)]
+    if order == 1:
+        cells.reverse()
+    elif order == 2:
+        cells.sort(key=lambda ij: (ij[1], ij[0]))
+    elif order == 3:
+        cells.sort(key=lambda ij: ((ij[0] * 3 + ij[1] * 5) % 7, ij))
+    ncols = 2 * n + 2 * (2 * n - 1)
+    m = []
+    for i, j in cells:
+        row = [0] * ncols
+        row[i] = row[n + j] = row[2 * n + i + j] = row[2 * n + (2 * n - 1) + (i - j + n - 1)] = 1
+        m.append(row)
+    return m, list(range(2 * n, ncols))
+
+
+def _queens_chunk(params, lo, hi):
+    """n-queens (n = 1..7) as exact cover with secondary diagonal columns x 4 row orders x find_all x max_solutions {None, 2}:
+    two row choices that cover the same primary columns but different secondary ones, search trees deeper than any 4x4
+    matrix gives. index = ((n_index*4 + order)*2 + find_all)*2 + limited"""
+    ns = params
+    r = new_result()
+    for idx in range(lo, hi):
+        limited = idx % 2
+        fa = bool(idx // 2 % 2)
+        order = idx // 4 % 4
+        n = ns[idx // 16]
+        m, sec = nqueens_matrix(n, order)
+        run_case(r, m, sec, fa, max_solutions=2 if limited else None)
+        if len(r["violations"]) >= 40 or too_many_hangs():
+            r["capped"] = True
+            break
+    return r
+
+
 def _big_chunk(params, lo, hi):
     rows, cols, off = params
     r = new_result()
@@ -317,6 +380,8 @@ def jobs(tier, seed):
     for rows in (1, 2, 3):
         for cols in (1, 2, 3):
             js.append(Job(f"limits_{rows}x{cols}", 2 ** (rows * cols) * 2**cols * len(LIMITS) * 3, _limits_chunk, (rows, cols, True), describe="max_solutions / max_iter / column naming cross, all secondary subsets"))
+    qn = (1, 2, 3, 4, 5, 6, 7) if tier == "thorough" else (1, 2, 3, 4, 5, 6)
+    js.append(Job("n_queens_secondary_diagonals", len(qn) * 16, _queens_chunk, qn, chunk=1, describe=f"n-queens for n in {qn} as exact cover with secondary diagonals, 4 row orders, find_all on/off, max_solutions None/2"))
     js.append(Job("limits_4x4_nosec", 2**16 * len(LIMITS), _limits_chunk, (4, 4, False), describe="limit cross on all 4x4 matrices without secondary columns; column naming rotates with the index"))
     if tier == "thorough":
         js.append(Job("big_5x4", 2**20, _big_chunk, (5, 4, 0), describe="all 5x4 matrices, find_all"))
